@@ -33,11 +33,15 @@ import (
 )
 
 type LCase struct {
-	Ops     []string `json:"ops"` // m | P (panics on its first delivery) | poison | stop
-	Senders int      `json:"senders"`
-	Budget  int      `json:"budget"`
-	Size    int      `json:"size"`
-	Sched   []int    `json:"sched"`
+	Ops []string `json:"ops"` // m | P (panics on its first delivery) | poison | stop | chain (see Chain)
+	// Chain: the message sent by a "chain" op makes the actor send itself the next chain message from
+	// inside Receive, Chain times: that many consecutive non-empty batches in one run of the inbox
+	// (more than its throughput of 300 when Chain > 300)
+	Chain   int   `json:"chain,omitempty"`
+	Senders int   `json:"senders"`
+	Budget  int   `json:"budget"`
+	Size    int   `json:"size"`
+	Sched   []int `json:"sched"`
 	// Priority schedule (used when Prio is not empty; PCT, Burckhardt et al. 2010): every thread gets
 	// a priority in creation order (Prio, cyclic), the runnable thread with the highest priority runs,
 	// and at the step numbers in Change the thread that ran last drops below everybody else.  A thread
@@ -90,6 +94,7 @@ type lworld struct {
 	how      []string
 	early    string // C07: a context was done before the final Stopped / unregistration
 	final    int    // number of final Stopped deliveries (an incarnation with no successor)
+	chain    int
 }
 
 type lrcv struct {
@@ -147,6 +152,12 @@ func (r *lrcv) Receive(c *actor.Context) {
 		w.panicked[s] = true
 		panic("generated crash " + s)
 	}
+	if s, ok := c.Message().(string); ok && s[0] == 'C' {
+		var op, k int
+		if n, _ := fmt.Sscanf(s, "C%d.%d", &op, &k); n == 2 && k < w.chain {
+			c.Send(c.PID(), fmt.Sprintf("C%d.%d", op, k+1))
+		}
+	}
 	w.watch("at the exit of Receive(" + entry + ")")
 }
 
@@ -161,10 +172,10 @@ func runLife(c LCase) (v lverdict, trace []string, steps int) {
 }
 
 func runLifeWith(c LCase, ch vsched.Chooser) (v lverdict, trace []string, steps int) {
-	if c.Senders < 1 || c.Senders > 3 || len(c.Ops) < 1 || len(c.Ops) > 8 || c.Budget < 0 || c.Budget > 3 || c.Size < 1 {
+	if c.Senders < 1 || c.Senders > 3 || len(c.Ops) < 1 || len(c.Ops) > 8 || c.Budget < 0 || c.Budget > 3 || c.Size < 1 || c.Chain < 0 || c.Chain > 400 {
 		return
 	}
-	w := &lworld{panicked: map[string]bool{}}
+	w := &lworld{panicked: map[string]bool{}, chain: c.Chain}
 	s := vsched.New()
 	s.Go("main", func() {
 		e, _ := actor.NewEngine(actor.NewEngineConfig())
@@ -189,6 +200,8 @@ func runLifeWith(c LCase, ch vsched.Chooser) (v lverdict, trace []string, steps 
 						w.ctxs = append(w.ctxs, ctx)
 						w.how = append(w.how, op)
 						w.watch("when the call returned")
+					case "chain":
+						e.Send(pid, fmt.Sprintf("C%d.0", i))
 					default:
 						e.Send(pid, fmt.Sprintf("%s%d", op, i))
 					}
@@ -284,6 +297,14 @@ func runLifeWith(c LCase, ch vsched.Chooser) (v lverdict, trace []string, steps 
 			}
 		}
 		for i, op := range c.Ops {
+			if op == "chain" {
+				for k := 0; k <= c.Chain && v.c03 == ""; k++ {
+					if key := fmt.Sprintf("C%d.%d", i, k); seen[key] != 1 {
+						v.c03 = fmt.Sprintf("every thread has finished (nothing is runnable); chain message %q (the actor sends itself the next one from inside Receive: %d consecutive non-empty batches) was handled %d times, want once; the actor rests with %d deliveries logged", key, c.Chain+1, seen[key], len(w.log))
+					}
+				}
+				continue
+			}
 			k := fmt.Sprintf("%s%d", op, i)
 			if v.c03 == "" && seen[k] != 1 {
 				v.c03 = fmt.Sprintf("every thread has finished (nothing is runnable); message %q was handled %d times, want once (a started, not stopped actor rests with unprocessed messages, or a message was duplicated); log=%v", k, seen[k], w.log)
@@ -299,6 +320,10 @@ func genLife(t *rapid.T) LCase {
 		Senders: rapid.IntRange(1, 3).Draw(t, "senders"),
 		Budget:  rapid.IntRange(0, 3).Draw(t, "budget"),
 		Size:    rapid.SampledFrom([]int{1, 2, 4}).Draw(t, "size"),
+	}
+	if rapid.IntRange(0, 11).Draw(t, "chain") == 0 {
+		c.Chain = rapid.SampledFrom([]int{5, 299, 301, 320}).Draw(t, "chainlen")
+		c.Ops[rapid.IntRange(0, len(c.Ops)-1).Draw(t, "chainpos")] = "chain"
 	}
 	if rapid.IntRange(0, 2).Draw(t, "uniform") == 0 {
 		c.Sched = rapid.SliceOfN(rapid.IntRange(0, 5), 0, 400).Draw(t, "sched")
